@@ -193,7 +193,7 @@ Proof.
     destruct (wstep_store _ _ _ _ _ _ _ _ _ _ _ _ Hstep Hpc)
       as (-> & Hv & _ & _ & Hpc' & wv & a & b & Ewv & Ea & Eb & Epw).
     pose proof (gi_gain _ _ _ Hg _ _ Hw) as Hgw. unfold gain_ok in Hgw. rewrite Hpc in Hgw.
-    destruct Hgw as (Hip & Htg & Htk & _ & _).
+    destruct Hgw as (Hip & _ & Htg & Htk & _ & _).
     pose proof (Forall_nth_opt _ _ _ _ Hcap Hw) as Hcw. unfold cap_ok in Hcw. rewrite Hpc in Hcw.
     destruct Hcw as (wv' & Ewv' & Hle). fold vw in Ewv. rewrite Ewv in Ewv'. injection Ewv' as <-.
     assert (Hwv : 0 <= wv) by (eapply (Forall_nth_opt _ _ _ _ vw_nonneg); eauto).
